@@ -627,7 +627,7 @@ class SDEBase(PDEBase):
         # check for self.noise, but do not assume it is defined in case __init__ is not
         # called in a subclass
         noise = getattr(self, "noise", 0)
-        has_noise_var = not np.allclose(noise, 0, atol=1e-14)
+        has_noise_var = bool(np.any(np.asarray(noise) != 0))
         return (self.use_noise_variance and has_noise_var) or self.use_noise_realization
 
     @overload
